@@ -271,7 +271,7 @@ func runC20(c *Ctx) {
 			c.Check("L3-created-errors-cite", key, ok, in.Pos(), "an error created in the evaluator of %s must start with `line %%d, column` of the receiver's own LineNum and Column", recvName(root))
 		})
 	}
-	c.Min("L3-created-errors-cite", 40)
+	c.Min("L3-created-errors-cite", 20)
 
 	// L4: citing closure
 	type evalFn struct {
